@@ -331,6 +331,8 @@ def check(run, db, tier):
                 a0 = ast.unparse(n.value.args[0]) if n.value.args else ''
                 run.check(a0 == 'self.data.shape', 'C04.who', fi.qual, 'grid shape', 'grid built from the data shape', 'grid built from %s' % a0, fi.loc(n))
 
+    from .c01 import fresh_rules
+    run.group(fresh_rules, run, db, 'C04.range')
     run.require_instances("C04.pad", 64)
     run.require_instances('C04.crop', 17)
     run.require_instances('C04.centre', 30)
